@@ -50,4 +50,5 @@ func coreHash(hashFunction HashFunction, out []uint8, typeValue uint32, key []ui
 	case SHA2_256:
 		misc.SHA256(out, buf)
 	}
+	verifHash(hashFunction, typeValue, buf, out)
 }
